@@ -197,7 +197,8 @@ public:
 
   //! Invoke a function call without `target` type enforcement.
   ASMJIT_INLINE_NODEBUG Error invoke_(Out<InvokeNode*> out, const Operand_& target, const FuncSignature& signature) {
-    return add_invoke_node(out, Inst::kIdBlr, target, signature);
+    // `blr` only exists with a register operand; a label or an address is called with `bl`.
+    return add_invoke_node(out, target.is_reg() ? Inst::kIdBlr : Inst::kIdBl, target, signature);
   }
 
   //! Invoke a function call of the given `target` and `signature` and store the added node to `out`.
